@@ -48,13 +48,41 @@ Proof.
   repeat match goal with H : _ = true |- _ => rewrite H; clear H end. reflexivity.
 Qed.
 
+(* a null-permission table: class -> the wire names that may carry an explicit null; classes not listed are unrestricted *)
+Definition NLtab (tab : list (string * list string)) (c k : string) : bool :=
+  match assoc c tab with Some l => mem k l | None => true end.
+
 Section Link.
 Variable mm : MM.
 Variable Sg : sigma.
 Variable alias_objects : list (string * pty).
 Notation smatch := (smatch mm Sg alias_objects).
 Notation py_of := (py_of mm).
-Notation pvalid := (pvalid Sg).
+
+(* may a value of t be null?  (fuel exhaustion answers yes: the answer is only used to PERMIT an explicit null) *)
+Fixpoint admits_null (n : nat) (t : ty) : bool :=
+  match n with O => true | S n =>
+  match t with
+  | TBase BNull => true
+  | TOr l => existsb (admits_null n) l
+  | TRef name => if String.eqb name "LSPAny" then true else
+                 match find_alias mm name with
+                 | Some a => if opaque_ref name then false else admits_null n (a_type a)
+                 | None => match find_enum mm name with Some e => match e_base e with BNull => true | _ => false end | None => false end end
+  | _ => false end end.
+(* the null permission of the metamodel, read per (class, wire name): members of classes that are not metamodel structures
+   (generated for literals / and-types / envelopes) are not restricted *)
+Definition nl_entry (s : MM.structure) : string * list string :=
+  (s_name s, map p_name (filter (fun q => admits_null 12 (p_type q)) (flat mm (s_name s)))).
+Definition nl_table : list (string * list string) := map nl_entry (structures mm).
+Definition NLmm : string -> string -> bool := NLtab nl_table.
+Lemma assoc_nl_table name : assoc name nl_table = option_map (fun s => snd (nl_entry s)) (find_struct mm name).
+Proof.
+  unfold nl_table, find_struct, assoc. induction (structures mm) as [|x l IH]; [reflexivity|].
+  cbn [map find]. change (fst (nl_entry x)) with (s_name x).
+  destruct (String.eqb (s_name x) name) eqn:E; [reflexivity | exact IH].
+Qed.
+Notation pvalid := (pvalid Sg NLmm).
 
 Lemma pmembers_memb n b : memb_ok b = true -> pmembers alias_objects n b = [b].
 Proof. destruct n; [reflexivity|]. unfold memb_ok, wfp. destruct b; cbn; try reflexivity; intros H; split_andb; discriminate. Qed.
@@ -229,11 +257,12 @@ Lemma obj_pvalid c fs ps m :
   lookup_cls Sg c = Some fs -> Corr ps fs -> NoDup (map p_name ps) -> NoDup (keys m) ->
   (forall k v, In (k, v) m -> exists p, In p ps /\ p_name p = k /\ Pm (p_type p) v /\ cvalid (p_type p) v) ->
   (forall p, In p ps -> p_opt p = false \/ is_strlit (p_type p) = true -> In (p_name p) (keys m)) ->
+  (forall q, In q ps -> cvalid (p_type q) JNull -> NLmm c (p_name q) = true) ->
   pvalid (PyCls c) (JObj m).
 Proof.
-  intros L [NDf [Cq Cf]] NDp NDm Hm Hr. eapply pv_cls; [exact L | exact NDm | |].
+  intros L [NDf [Cq Cf]] NDp NDm Hm Hr HNL. eapply pv_cls; [exact L | exact NDm | |].
   - intros k v I. destruct (Hm k v I) as [q [Iq [En [PM CV]]]]. destruct (Cq q Iq) as [f [k0 [If [Ew [Ed [Et [Ev Eo]]]]]]].
-    exists f. split; [exact If|]. split; [congruence|]. split; [|exact (jvalidate_ok q f v CV Ev)].
+    exists f. split; [exact If|]. split; [congruence|]. split; [|split; [exact (jvalidate_ok q f v CV Ev) | intros EN; rewrite <- En; apply HNL; [exact Iq | rewrite <- EN; exact CV]]].
     destruct (PM PY_FUEL) as [a [Ia Ha]]. unfold expected_type in Et.
     destruct (is_optional q).
     + exact (via_member _ v a (sflat_mk_union_l _ a Ia) Ha k0 (ftype f) (HF c fs f L If) Et).
@@ -377,6 +406,33 @@ Qed.
 Lemma sm_litcls pl : forall k b, memb_ok b = true -> smatch k (SLitCls pl) b = true -> exists c k', b = PyCls c /\ smatch (S k') (SLitCls pl) (PyCls c) = true.
 Proof. intros k b M H. destruct k as [|k]; [discriminate|]. destruct b; cbn in M; try discriminate; try (cbn in H; discriminate). eauto. Qed.
 
+(* the null permission is complete for closed validity *)
+Lemma admits_null_complete : forall t, cvalid t JNull -> forall n, admits_null n t = true.
+Proof.
+  fix IH 2. intros t V n. destruct n as [|n]; [reflexivity|].
+  inversion V as [| | | | | | | | | | | | | | | |l t0 j0 It Vt|j0| | | | |n0 a j0 Fa Oa Va|n0 e j0 Fe Xe|n0 e j0 Fe Ce Ve]; subst; cbn [admits_null]; try reflexivity.
+  - apply existsb_exists. exists t0. split; [exact It | apply IH; exact Vt].
+  - destruct (String.eqb n0 "LSPAny"); [reflexivity|]. rewrite Fa, Oa. apply IH. exact Va.
+  - exfalso. apply existsb_exists in Xe. destruct Xe as [x [_ Mx]]. destruct (snd (fst x)); discriminate.
+  - destruct (HN_enum n0 e Fe) as [_ [A _]]. rewrite A.
+    destruct (find_alias mm n0) as [a|] eqn:FA.
+    + destruct (opaque_ref n0) eqn:O; [|destruct (HN_alias n0 a FA O) as [_ X]; congruence].
+      exfalso. unfold opaque_ref in O. destruct (HN_enum n0 e Fe) as [_ [B C]]. rewrite B, C in O. cbn in O.
+      apply String.eqb_eq in O. subst n0. destruct HA as [_ [HA2 _]]. congruence.
+    + rewrite Fe. inversion Ve; subst; reflexivity.
+Qed.
+Lemma NL_struct name s q : find_struct mm name = Some s -> In q (flat mm name) -> cvalid (p_type q) JNull -> NLmm name (p_name q) = true.
+Proof.
+  intros F I V. unfold NLmm, NLtab. rewrite assoc_nl_table, F. cbn [option_map nl_entry snd]. apply mem_in. apply in_map.
+  pose proof (find_some _ _ F) as [_ En]. apply String.eqb_eq in En. rewrite En.
+  apply filter_In. split; [exact I | apply admits_null_complete; exact V].
+Qed.
+Lemma NL_lit k pl c x : smatch (S k) (SLitCls pl) (PyCls c) = true -> NLmm c x = true.
+Proof.
+  intros M. cbn [Image.smatch] in M. apply andb_true_iff in M. destruct M as [M _]. apply negb_true_iff in M.
+  unfold NLmm, NLtab, is_mm_name in *. rewrite assoc_nl_table. destruct (find_struct mm c); [discriminate | reflexivity].
+Qed.
+
 (* object-like types *)
 Lemma Pm_obj t ps m : obj_props mm t = Some ps -> NoDup (map p_name ps) -> NoDup (keys m) ->
   (forall k v, In (k, v) m -> exists p, In p ps /\ p_name p = k /\ Pm (p_type p) v /\ cvalid (p_type p) v) ->
@@ -392,17 +448,17 @@ Proof.
     intros k b Mb Sm. rewrite (sm_cls name k b Mb Sm).
     pose proof (find_some _ _ F) as [Is En]. apply String.eqb_eq in En.
     destruct (corr_struct s Is) as [fs [L C]]; [rewrite En; intro E; rewrite E in O2; discriminate|]. rewrite En in L, C.
-    exact (obj_pvalid name fs (flat mm name) m L C NDp NDm Hm Hr).
+    exact (obj_pvalid name fs (flat mm name) m L C NDp NDm Hm Hr (fun q Iq Vq => NL_struct name s q F Iq Vq)).
   - (* and-type *) cbn [obj_props] in OP. inversion OP; subst ps.
     apply Pm_at. intros n. exists (SLitCls (and_props mm l)). split; [reflexivity|]. split; [reflexivity|].
     intros k b Mb Sm. destruct (sm_litcls _ k b Mb Sm) as [c [k' [-> Sm']]].
-    destruct (corr_lit k' _ c Sm' NDp) as [fs [L C]]. exact (obj_pvalid c fs _ m L C NDp NDm Hm Hr).
+    destruct (corr_lit k' _ c Sm' NDp) as [fs [L C]]. exact (obj_pvalid c fs _ m L C NDp NDm Hm Hr (fun q _ _ => NL_lit k' _ c (p_name q) Sm')).
   - (* literal *) cbn [obj_props] in OP. inversion OP; subst ps. destruct lp as [|x r].
     + apply Pm_at. intros n. exists SAny. split; [reflexivity|]. split; [reflexivity|].
       intros k b Mb Sm. rewrite (sm_any k b Mb Sm). constructor.
     + apply Pm_at. intros n. exists (SLitCls (props_of_lit (x :: r))). split; [reflexivity|]. split; [reflexivity|].
       intros k b Mb Sm. destruct (sm_litcls _ k b Mb Sm) as [c [k' [-> Sm']]].
-      destruct (corr_lit k' _ c Sm' NDp) as [fs [L C]]. exact (obj_pvalid c fs _ m L C NDp NDm Hm Hr).
+      destruct (corr_lit k' _ c Sm' NDp) as [fs [L C]]. exact (obj_pvalid c fs _ m L C NDp NDm Hm Hr (fun q _ _ => NL_lit k' _ c (p_name q) Sm')).
 Qed.
 
 Ltac base_case s0 inv ctor :=
